@@ -112,3 +112,48 @@ Print Assumptions C16_sort_layout_list_errs.
 Theorem C16_sort_layout_never_panics : forall ts, sort_layout_of ts <> Panic.
 Proof. exact sort_layout_never_panics. Qed.
 Print Assumptions C16_sort_layout_never_panics.
+
+(* 10. the inline / reference PREDICATES at every site of the current source agree for EVERY length (in particular
+   len = MAX_INLINE_LEN): array push, StringView::is_inline/is_reference (array readers, row writer, heap sizing),
+   StringPtr::is_inline/is_reference (row readers via as_bytes), the four constructor assertions.  A value written
+   inline is read inline, a value written to the heap is read through its pointer, no assertion fires. *)
+From GV Require model.LayoutSrc.
+Theorem C16_string_predicates_agree :
+  exists S k, LayoutSrc.src_str_preds = Some S /\ TablesLayout.max_inline_len = Some k /\
+              TablesLayout.inline_buffer_len = Some k /\ preds_agree S k = true /\
+              (exists n, TablesLayout.row_writer_uses_view_is_inline = Some n) /\
+              TablesLayout.heap_sizes_validity_by_selected_row = Some 1 /\
+  forall len,
+    roundtrip S len = Safe len /\
+    push_view S len = Safe (if len <=? k then RInline else RReference) /\
+    (holds (sv_inline S) len = holds (sp_inline S) len) /\
+    (holds (sv_reference S) len = negb (holds (sv_inline S) len)) /\
+    (holds (sp_reference S) len = negb (holds (sp_inline S) len)).
+Proof. exact src_string_predicates_agree. Qed.
+Print Assumptions C16_string_predicates_agree.
+
+Theorem C16_string_repr_roundtrip : forall S k, preds_agree S k = true ->
+  forall len, roundtrip S len = Safe len /\ (holds (sv_inline S) len = holds (sp_inline S) len).
+Proof. intros S k H len. destruct (string_repr_roundtrip S k H len) as [A [_ [B _]]]. split; assumption. Qed.
+Print Assumptions C16_string_repr_roundtrip.
+
+(* 11. heap sizes: for any validity masks and ANY row selection, the size computed for output row i is exactly the
+   number of bytes the writer copies to the heap for the row selected at position i; the heap block reserved by
+   prepare_append is the sum of the sizes and row i's bytes lie inside it, before row i+1's *)
+Theorem C16_heap_sizes_cover_writes : forall S arrays rows sizes,
+  compute_heap_sizes S arrays rows = Some sizes ->
+  List.length sizes = List.length rows /\
+  forall i row, nth_error rows i = Some row ->
+    exists w, bytes_written S arrays row = Some w /\ nth_error sizes i = Some w.
+Proof. exact heap_sizes_cover_writes. Qed.
+Print Assumptions C16_heap_sizes_cover_writes.
+
+Theorem C16_heap_rows_within_block : forall sizes,
+  snd (heap_block_of sizes) = fold_left N.add sizes 0 /\
+  forall i off, nth_error (fst (heap_block_of sizes)) i = Some off ->
+  exists s, nth_error sizes i = Some s /\ off + s <= snd (heap_block_of sizes) /\
+            forall j off2, (i < j)%nat -> nth_error (fst (heap_block_of sizes)) j = Some off2 -> off + s <= off2.
+Proof.
+  intros sizes. split; [unfold heap_block_of; rewrite heap_block_total; apply N.add_0_l|apply heap_rows_within_block].
+Qed.
+Print Assumptions C16_heap_rows_within_block.
